@@ -462,6 +462,83 @@ def function_operator_model(rep, rec, path, U, m, refs, den):
     hs.clear()
 
 
+def manager_and_loop_model(rep, rec, path):
+    name = os.path.basename(path)
+    try:
+        bad, n = P.wrap_manager_uses(path)
+        bad2, n2 = P.container_reuse_in_loops(path)
+    except Exception as e:  # noqa
+        rep.note('%s: manager / loop scan failed (%r)' % (name, e))
+        rep.add('uninterpreted')
+        return
+    rep.add('evaluations', n + n2)
+    rep.add('wraps_scanned', n)
+    rep.add('release_loops_scanned', n2)
+    for cls, fname, line, text, x in bad:
+        rec('wrap-manager:%s:%s' % (name, fname),
+            '%s:%s%s line %s: the node was produced in the manager of `%s` but the Function is '
+            'wrapped for another manager: %s' % (name, (cls + '.') if cls else '', fname, line,
+                                                 x, text),
+            dict(file=name, function=fname, cls=cls, line=line))
+    for cls, fname, line, base in bad2:
+        rec('container-reuse:%s:%s' % (name, fname),
+            '%s:%s%s line %s: the references parked in `%s` are released inside a loop, but the '
+            'container is not created inside that loop: the next iteration finds entries whose '
+            'references are gone' % (name, (cls + '.') if cls else '', fname, line, base),
+            dict(file=name, function=fname, cls=cls, line=line, container=base))
+
+
+def ite_method_model(rep, rec, path, U):
+    """The manager's own `ite(g, u, v)` method (not the 'ite' branch of apply), interpreted on
+    all triples of truth tables of two variables."""
+    name = os.path.basename(path)
+    irs = {}
+    for cls in ('BDD', 'ZDD'):
+        try:
+            irs.update({(cls, k): v for k, v in P.cy_method_irs(path, cls).items() if k == 'ite'})
+        except Exception:  # noqa
+            pass
+    if not irs:
+        rep.mark('function_methods_absent', '%s: manager ite' % name)
+        return
+    text = open(path, encoding='utf8').read()
+    for (cls, _), ir in irs.items():
+        interp = P.Interp(P.Model(U), dd._utils.assert_operator_arity, _literal_sets(text))
+        fs = list(range(1 << U.N))
+        bad = None
+        status = 'agrees'
+        for fg in fs:
+            for fu in fs:
+                for fv in fs[fg % 3::3]:
+                    env_ = dict(g=P.Handle(fg), u=P.Handle(fu), v=P.Handle(fv), self=P._MGR,
+                                mgr=P._MGR)
+                    try:
+                        r = interp._block(ir, env_)
+                        got = interp._mask(r)
+                    except (P.Uninterpreted, P.Rejected) as e:
+                        status = 'uninterpreted'
+                        rep.mark('uninterpreted_constructs', '%s %s.ite: %s' % (name, cls, e))
+                        break
+                    rep.add('evaluations')
+                    rep.add('model_transitions')
+                    want = (fg & fu) | ((U.full ^ fg) & fv)
+                    if got != want and bad is None:
+                        bad = (fg, fu, fv, got, want)
+                    elif fg not in (0, U.full):
+                        rep.add('nontrivial')
+                if status != 'agrees':
+                    break
+            if status != 'agrees':
+                break
+        rep.mark('function_methods_' + status, '%s: %s.ite' % (name, cls))
+        if bad is not None:
+            fg, fu, fv, got, want = bad
+            rec('ite-method:%s:%s' % (name, cls),
+                '%s: %s.ite(%s, %s, %s) gives %s where ite means %s' % (
+                    name, cls, U.fmt(fg), U.fmt(fu), U.fmt(fv), U.fmt(got), U.fmt(want)),
+                dict(file=name, cls=cls, method='ite'))
+
+
 def lifetime_model(rep, rec, path):
     name = os.path.basename(path)
     try:
@@ -498,7 +575,9 @@ def analyse(which=None):
         reference_model(rep, rec, path)
         wrap_model(rep, rec, path)
         lifetime_model(rep, rec, path)
+        manager_and_loop_model(rep, rec, path)
         function_operator_model(rep, rec, path, U, m, refs, den)
+        ite_method_model(rep, rec, path, U)
     return rep, n
 
 
